@@ -1104,7 +1104,7 @@ class Range(StrCompareMixin, pmbl.Slice):
 
     def __eq__(self, other):
         """ Specialization to capture ``a(1:n) == a(n)`` """
-        if self.children[0] == 1 and self.children[2] is None:
+        if self.children[0] == 1 and self.children[1] is not None and self.children[2] is None:
             return self.children[1] == other or super().__eq__(other)
         return super().__eq__(other)
 
@@ -1128,7 +1128,7 @@ class RangeIndex(Range):
 
     def __eq__(self, other):
         """ Specialization to capture `a(1:n) == a(n)` """
-        if self.children[0] == 1 and self.children[2] is None:
+        if self.children[0] == 1 and self.children[1] is not None and self.children[2] is None:
             return self.children[1] == other or super().__eq__(other)
         return super().__eq__(other)
 
